@@ -7,6 +7,7 @@ import numpy as np
 from common import gal, N, Some, Raw
 
 G = 4096            # grid units per Angstrom
+FINE = 2 ** 30       # fine units per Angstrom (positions of inserted atoms are arbitrary floats)
 QS = 1024           # charges / masses are multiples of 1/QS
 KINDS = [("bonds", "bond_types", "bond_type_coeffs", "extra_bond_fields", "extra_bond_labels", 2),
          ("angles", "angle_types", "angle_type_coeffs", "extra_angle_fields", "extra_angle_labels", 3),
@@ -39,8 +40,8 @@ def togrid(x, scale=G):
     return int(r)
 
 
-def to_atoms(st):
-    """dict state -> mofun.Atoms (positions in grid units / G, charges & masses / QS)"""
+def to_atoms(st, pos_scale=G):
+    """dict state -> mofun.Atoms (positions in grid units / pos_scale, charges & masses / QS)"""
     from mofun import Atoms
     kw = {}
     for k, t_, c_, x_, l_, ar in KINDS:
@@ -52,9 +53,9 @@ def to_atoms(st):
         kw[x_] = [list(r) for r in kk["xf"]] if (kk["xl"] and kk["tup"]) else []
     cell = None
     if st.get("cell") is not None:
-        cell = np.array(st["cell"], dtype=float) / G
+        cell = np.array(st["cell"], dtype=float) / pos_scale
     with quiet(), contextlib.redirect_stdout(io.StringIO()):
-        return Atoms(atom_types=list(st["typ"]), positions=[[c / G for c in p] for p in st["pos"]],
+        return Atoms(atom_types=list(st["typ"]), positions=[[c / pos_scale for c in p] for p in st["pos"]],
                      charges=[c / QS for c in st["chg"]], groups=list(st["grp"]),
                      atom_type_elements=list(st["t_el"]), atom_type_masses=[m / QS for m in st["t_mass"]],
                      atom_type_labels=list(st["t_lab"]), pair_coeffs=list(st["t_pair"]),
@@ -62,10 +63,11 @@ def to_atoms(st):
                      cell=cell, **kw)
 
 
-def dump(a):
-    """mofun.Atoms -> dict state (raises ValueError when something is off the grid)"""
+def dump(a, pos_scale=G, strict=True):
+    """mofun.Atoms -> dict state (raises ValueError when something is off the grid, unless strict=False: then positions are rounded)"""
     n = len(a.positions)
-    st = dict(pos=[tuple(togrid(float(x)) for x in p) for p in np.array(a.positions).reshape(-1, 3)],
+    pg = (lambda x: togrid(x, pos_scale)) if strict else (lambda x: int(round(x * pos_scale)))
+    st = dict(pos=[tuple(pg(float(x)) for x in p) for p in np.array(a.positions).reshape(-1, 3)],
               typ=[int(x) for x in a.atom_types], chg=[togrid(float(x), QS) for x in a.charges],
               grp=[int(x) for x in a.groups],
               xl=[str(x) for x in a.extra_atom_labels],
@@ -80,7 +82,7 @@ def dump(a):
                      xf=[[str(x) for x in r] for r in xf.reshape(len(tup), -1).tolist()] if len(tup) else [])
         if len(xf) != len(tup):
             raise ValueError("extra fields of %s have %d rows for %d terms" % (k, len(xf), len(tup)))
-    st["cell"] = None if a.cell is None else [tuple(togrid(float(x)) for x in row) for row in np.array(a.cell)]
+    st["cell"] = None if a.cell is None else [tuple(togrid(float(x), pos_scale) for x in row) for row in np.array(a.cell)]
     return st
 
 
